@@ -371,6 +371,10 @@ pub struct Agg {
     pub harness_errors: Vec<String>,
     pub per_scenario: BTreeMap<String, (u64, u64)>, // evaluations, nontrivial
     pub determinism_rechecks: u64,
+    /// wrapping sum over the repeatable runs of hash(scenario, run index, outcome fingerprint): independent
+    /// of how the run indices were distributed over worker processes and of their completion order
+    pub outcome_digest: u64,
+    pub digest_runs: u64,
 }
 
 impl Agg {
@@ -387,6 +391,8 @@ impl Agg {
             "harness_errors": self.harness_errors,
             "per_scenario": self.per_scenario.iter().map(|(k,(e,n))| (k.clone(), json!([e,n]))).collect::<Map<String,Value>>(),
             "determinism_rechecks": self.determinism_rechecks,
+            "outcome_digest": format!("{:x}", self.outcome_digest),
+            "digest_runs": self.digest_runs,
         })
     }
     pub fn merge_json(&mut self, v: &Value) {
@@ -443,6 +449,8 @@ impl Agg {
             }
         }
         self.determinism_rechecks += v["determinism_rechecks"].as_u64().unwrap_or(0);
+        self.outcome_digest = self.outcome_digest.wrapping_add(v["outcome_digest"].as_str().and_then(|s| u64::from_str_radix(s, 16).ok()).unwrap_or(0));
+        self.digest_runs += v["digest_runs"].as_u64().unwrap_or(0);
     }
 }
 
@@ -512,6 +520,10 @@ pub fn child_main(prop: &PropertyDef, tier: Tier, seed: u64, k: u64, n: u64) -> 
                         outcome_fingerprint(&o2)
                     ));
                 }
+            }
+            if s.recheckable(&params) {
+                agg.outcome_digest = agg.outcome_digest.wrapping_add(mix(mix(str_hash(s.name()), idx), str_hash(&outcome_fingerprint(&o))));
+                agg.digest_runs += 1;
             }
             agg.evaluations += 1;
             let e = agg.per_scenario.entry(s.name().to_string()).or_insert((0, 0));
@@ -873,6 +885,8 @@ pub fn parent_main(prop: &PropertyDef, all_props_bin: &Path, opts: &ParentOpts) 
             "reach_probes_and_counters": probe_counters,
             "probes_stuck_at_zero": stuck,
             "determinism_rechecks": agg.determinism_rechecks,
+            "outcome_digest_of_repeatable_runs": format!("{:x}", agg.outcome_digest),
+            "runs_in_outcome_digest": agg.digest_runs,
             "known_findings_hit": known_hit.keys().collect::<Vec<_>>(),
             "components": comps,
             "profile": "release, opt-level=2 (dependencies 3), overflow-checks=on, debug-assertions=on for mini-mcmc and the harness, panic=unwind",
@@ -886,9 +900,13 @@ pub fn parent_main(prop: &PropertyDef, all_props_bin: &Path, opts: &ParentOpts) 
     let edir = verif_dir().join("evidence");
     let _ = std::fs::create_dir_all(&edir);
     let epath = edir.join(format!("{}.json", prop.id));
-    if let Err(e) = std::fs::write(&epath, serde_json::to_string_pretty(&evidence).unwrap()) {
-        hard_errors.push(format!("cannot write evidence: {e}"));
+    // (bin/determinism.sh repeats checks with other seeds / worker counts and must not replace the evidence)
+    if std::env::var("VERIF_NO_EVIDENCE").is_err() {
+        if let Err(e) = std::fs::write(&epath, serde_json::to_string_pretty(&evidence).unwrap()) {
+            hard_errors.push(format!("cannot write evidence: {e}"));
+        }
     }
+    println!("digest: runs={} outcome_digest={:x}", agg.digest_runs, agg.outcome_digest);
     println!(
         "summary: evaluations={} distinct_nontrivial={} work={} wall={:.1}s known_findings={} violations={} harness_errors={}",
         agg.evaluations,
